@@ -258,7 +258,8 @@ def run(case: dict, ctx) -> dict:
     stale = rng.choice([0, 0, 1, 2, 3])
     raw, meta = w.build(rng, tree, ntables=ntables, seqs=(s1, s2), stale_tables=stale, free_prob=rng.choice([0, 0.15, 0.4]),
                         table_order=rng.choice(["shuffle", "shuffle", "seq"]), extra_object_tables=rng.choice([0, 0, 1, 3]),
-                        trailer_mode=rng.choice(["12", "12", "0", "rand"]), stale_same_layout=rng.random() < 0.7)
+                        trailer_mode=rng.choice(["12", "12", "0", "rand"]), stale_same_layout=rng.random() < 0.7,
+                        replay_entries=rng.choice([0, 0, 3]))
     want = expected(tree)
     # writer self-check against the independent mini-decoder (never blames the repository)
     md = mini_decode(raw)
